@@ -13,6 +13,9 @@ import (
 	"sort"
 	"strings"
 	"time"
+	"verif/bridge/memfs"
+	"verif/checks/c07"
+	"verif/ref/resolve"
 
 	"go.uber.org/thriftrw/compile"
 	"go.uber.org/thriftrw/gen"
@@ -24,7 +27,7 @@ import (
 var Check = &ev.Check{
 	ID:    "C06",
 	Level: "exploration",
-	Rule: "(a) benign programs, valid by construction of the harness's own schema model with identity-mapped names: every file of the cell universe (every type expression over 20 leaves at depth<=1 plus depth-2 representatives as required/optional field, union member, and one struct per default-value class), " +
+	Rule: "(s) every program of the systematic family of C07 (reference graphs of <=3 definitions over {typedef, struct, enum, const, service} in 7 include layouts) that the reference resolver deems valid: compiled and generated without error (no go build); (a) benign programs, valid by construction of the harness's own schema model with identity-mapped names: every file of the cell universe (every type expression over 20 leaves at depth<=1 plus depth-2 representatives as required/optional field, union member, and one struct per default-value class), " +
 		"a mini program (struct of ten representative fields, enum, typedefs, a constant of each kind, services with inheritance across an include) under all 64 subsets of {NoRecurse, NoZap, NoEmbedIDL, EnumTextMarshalStrict, OutputFile, NoServiceHelpers}, and layout programs (nested directories, thrift root at each ancestor, diamond and sibling-directory includes). Oracle: compile+generate succeed and `go build` of the emitted tree succeeds. " +
 		"(b) adversarial names: every name position (file/package, struct, field, enum, enum item, typedef, constant, service, function, argument, exception field, union member; 12) x every hostile identifier (Go keywords and predeclared names, initialisms, SCREAMING_CASE, leading/trailing/double underscores, names of generated methods and helper shapes, names of packages the templates import; ~85), " +
 		"every pair of colliding spellings in one scope (foo_bar/fooBar/FooBar/FOO_BAR, x/get_x/is_set_x...) for fields, enum items, definitions and functions, and go.name/go.label/go.tag/go.type annotations from a menu incl. malformed ones. Oracle: never 'generated successfully but does not build'. " +
@@ -331,6 +334,15 @@ func benign(quick bool) []cell {
 		out = append(out, cell{Name: "enumintx_" + it, Class: "enum-item-as-integer-cross:" + it, Benign: true, Root: "t.thrift",
 			Files: map[string]string{"t.thrift": "include \"./codes.thrift\"\n" + strings.ReplaceAll(body, "St.", "codes.St."), "codes.thrift": enum}})
 	}
+	// ... and the same through a constant: an integer constant whose value is an enum item (or
+	// a constant of the enum type) referenced wherever an integer of any width is expected
+	for _, it := range []string{"i8", "i16", "i32", "i64"} {
+		for _, via := range []string{"i32", "i64", "St", "TI"} {
+			body := fmt.Sprintf("typedef i32 TI\nconst %s V = St.NotFound\nconst %s X = V\nconst list<%s> L = [V, 3]\nconst map<%s, %s> M = {V: V}\nstruct H { 1: optional %s f = V; 2: required %s g = V }\nservice Sv { void c(1: %s a = V) }\n", via, it, it, it, it, it, it, it)
+			enum := "enum St { Ok = 0, NotFound = 44 }\n"
+			out = append(out, cell{Name: "enumvia_" + it + "_" + strings.ToLower(via), Class: "enum-item-through-constant:" + it, Benign: true, Root: "t.thrift", Files: map[string]string{"t.thrift": enum + body}})
+		}
+	}
 	// enums: duplicate values in every position, negative and explicit/implicit mixes
 	for i, e := range []string{"A = 0, B = 0, C = 1", "A = 1, B = 1", "A, B = 0, C", "A = -1, B, C = 0, D = 0, E", "A = 5, B = 5, C = 5, D", "A = 2147483647, B = -2147483648, C = 2147483647, D = 0"} {
 		out = append(out, cell{Name: fmt.Sprintf("enumdup%d", i), Class: "enum-duplicate-values", Benign: true, Root: "t.thrift",
@@ -429,7 +441,72 @@ func benign(quick bool) []cell {
 
 var pkgErrRE = regexp.MustCompile(`(?m)^(?:# |package |\s+imports )c06mod/([^/\s]+)/`)
 
+// systematic: every program of C07's systematic family (reference graphs of <=3
+// definitions, 7 include layouts) that the reference resolver deems
+// valid must be accepted by the compiler and the generator (no go build here: the cells
+// above cover the shapes of generated code). C07 itself only judges programs that compile.
+func systematic(w *ev.W) {
+	out, err := os.MkdirTemp(w.WorkDir, "c06sys")
+	if err != nil {
+		return
+	}
+	defer os.RemoveAll(out)
+	n := 0
+	c07.Enumerate(w.Quick(), func(rp resolve.Prog, layout string) {
+		if !w.Own() {
+			return
+		}
+		if !rp.Resolve().Valid {
+			return
+		}
+		n++
+		if n&255 == 0 && w.Expired() {
+			w.Cap("time budget reached inside the systematic acceptance family")
+		}
+		if len(w.R.Caps) > 0 {
+			return
+		}
+		w.Eval(1)
+		w.Nontrivial(1)
+		w.Count("systematic_valid_programs", 1)
+		files := rp.Render()
+		var gerr error
+		func() {
+			defer func() {
+				if r := recover(); r != nil {
+					gerr = fmt.Errorf("PANIC %v", r)
+				}
+			}()
+			m, err := compile.Compile(resolve.Path(0), compile.Filesystem(memfs.FS(files)))
+			if err != nil {
+				gerr = err
+				return
+			}
+			gerr = gen.Generate(m, &gen.Options{OutputDir: out, PackagePrefix: "c06sys", ThriftRoot: "/m", NoVersionCheck: true})
+		}()
+		if gerr != nil {
+			cls := sysErrRE.ReplaceAllString(gerr.Error(), "_")
+			if i := strings.LastIndex(cls, ": "); i >= 0 {
+				cls = cls[i+2:]
+			}
+			if len(cls) > 60 {
+				cls = cls[:60]
+			}
+			w.Violation("rejected-valid:systematic:"+cls, fmt.Sprintf("a valid program (layout %s) was rejected: %.300s; files %v", layout, gerr.Error(), files), files)
+		} else {
+			w.Outcome("systematic:accepted")
+		}
+		w.Done()
+		if n%500 == 0 {
+			os.RemoveAll(out)
+		}
+	})
+}
+
+var sysErrRE = regexp.MustCompile(`"[^"]*"|0x[0-9a-f]+|\{[^}]*\}|\d+`)
+
 func run(w *ev.W) {
+	systematic(w)
 	all := append(benign(w.Quick()), adversarial(w.Quick())...)
 	// this worker's share
 	var mine []cell
